@@ -3,6 +3,7 @@ import CM.Proofs.Label
 import CM.Spec.Label
 import CM.Proofs.RefKeysRewrite
 import CM.Proofs.ParseWholeMain
+import CM.Proofs.InlineSerLinkDoc
 /-
 C12 — references resolve by normalised label; first definition wins.
 Proved here: clause (b) for the extraction (`Extract` = first definition in document pre-order, for every
@@ -130,6 +131,25 @@ theorem parse_reference_nodes_have_keys (x : PExt) (ix : IExt) (inp : Bytes) :
       ∀ u ∈ T.nodes t', (T.isI u IK.link = true ∨ T.isI u IK.image = true ∨ T.isI u IK.linkLabel = true) →
         u.label.ref ≠ [] → ((parseDoc x ix inp).refs.lookup u.label.ref).isSome = true :=
   PW.parse_reference_nodes_have_keys x ix inp
+
+open CM.Proofs.InlSer CM.Model.Inl in
+/-- **A use whose normalised label the matcher accepts DOES resolve** (the converse direction, simplest setting): a line
+    `P1 [ P2 ]` of flat pieces (words, escapes, code spans, references, autolinks; the link ends the line) is rewritten to `P1`
+    followed by ONE Link node around `P2` whose `ref` is the model's own normalisation of the label … -/
+theorem shortcut_reference_resolves (x : IExt) (matchRef : Bytes → Bool) (cs ce : Int) (l : LinkLine) (hok : LinkLineOK x l)
+    (hm : matchRef (l.label x) = true) :
+    parseInlines x l.bytes l.bytes.toArray matchRef cs ce [mkInline IK.unparsed 0 (l.bytes.length : Int)] =
+      .ok ((l.A l.bytes).map nodeTree ++ [l.tree x]) :=
+  InlSer.parseInlines_linkline x matchRef cs ce l hok hm
+
+open CM.Proofs.InlSer CM.Model.Inl in
+/-- … and when the matcher rejects it the brackets stay literal text: resolution is EXACTLY the matcher's verdict on the
+    normalised label. -/
+theorem shortcut_reference_literal (x : IExt) (matchRef : Bytes → Bool) (cs ce : Int) (l : LinkLine) (hok : LinkLineOK x l)
+    (hm : matchRef (l.label x) = false) :
+    parseInlines x l.bytes l.bytes.toArray matchRef cs ce [mkInline IK.unparsed 0 (l.bytes.length : Int)] =
+      .ok ((l.A l.bytes ++ leafN IK.text l.p (l.p + 1) :: (l.B l.bytes ++ [leafN IK.text l.q (l.q + 1)])).map nodeTree) :=
+  InlSer.parseInlines_linkline_neg x matchRef cs ce l hok hm
 
 -- Non-vacuity
 private def b (s : String) : Bytes := s.toUTF8.toList
